@@ -14,6 +14,7 @@ require (
 require (
 	golang.org/x/mod v0.22.0 // indirect
 	golang.org/x/sync v0.10.0 // indirect
+	golang.org/x/sys v0.29.0 // indirect
 )
 
 replace github.com/keybase/saltpack => /repo
